@@ -737,7 +737,13 @@ func (e *encFunc) familyFinalLen(fm *family) LF {
 // classifyLen decides what a length/count slot carries.
 func (c *Ctx) classifyLen(e *encFunc, fm *family, r encRow, l leaf) string {
 	f, x := e.f, e.x
-	if call, ok := l.V.(*ssa.Call); ok {
+	// Leaves are identified by their linear form, so two len() calls with the same form in different branches
+	// share one leaf (and its first value). The call that feeds THIS write is the one to classify.
+	lv := l.V
+	if own := ownLenCall(r.Ins); own != nil {
+		lv = own
+	}
+	if call, ok := lv.(*ssa.Call); ok {
 		if bi, ok := call.Call.Value.(*ssa.Builtin); ok && bi.Name() == "len" {
 			arg := call.Call.Args[0]
 			if fk, ok := fieldKeyOfLoad(arg); ok {
@@ -1017,4 +1023,34 @@ func (e *encFunc) isFinalSeg(tfm, fm *family, s encSeg) bool {
 		}
 	}
 	return true
+}
+
+
+// ownLenCall: the len(...) call whose value (through integer conversions) is what instruction ins writes.
+func ownLenCall(ins ssa.Instruction) ssa.Value {
+	var v ssa.Value
+	switch x := ins.(type) {
+	case *ssa.Store:
+		v = x.Val
+	case *ssa.Call:
+		if cal := x.Call.StaticCallee(); cal != nil && strings.HasPrefix(cal.String(), "(encoding/binary.bigEndian).PutUint") && len(x.Call.Args) == 3 {
+			v = x.Call.Args[2]
+		}
+	}
+	for i := 0; i < 4 && v != nil; i++ {
+		switch y := v.(type) {
+		case *ssa.Convert:
+			v = y.X
+			continue
+		case *ssa.ChangeType:
+			v = y.X
+			continue
+		case *ssa.Call:
+			if bi, ok := y.Call.Value.(*ssa.Builtin); ok && bi.Name() == "len" {
+				return y
+			}
+		}
+		break
+	}
+	return nil
 }
